@@ -114,6 +114,18 @@ class C08(Check):
             ri, di = loc
             for pos in range(1, len(ws["roots"][ri]["defs"][di]["secs"][0]["items"]) + 1):
                 prints.append([ri, di, 0, pos, "offset", rng.randrange(1 << 20)])
+        if rng.random() < 0.15 and (ws["roots"][0]["name"] + ".TagK").lower() not in {d["name"].lower() for d in ws["roots"][0]["defs"]}:
+            # a union with few variants and so many constants that variants + constants crosses a tag-width boundary, nested in a
+            # structure (all variants share base + tag width; the field after it follows the union's own length set)
+            rn0 = ws["roots"][0]["name"]
+            nv2 = rng.choice([2, 3])
+            nconst = rng.choice([253, 254, 255, 256]) - nv2 + rng.choice([0, 1, 2])
+            vit = [["f", rng.choice([["u", 8, "s"], ["u", 13, "t"], ["var", ["u", 8, "s"], 2]]), "v%d" % i] for i in range(nv2)]
+            cit = [["c", ["u", 16, "s"], "K%d" % i, str(i), [i, 1]] for i in range(nconst)]
+            ws["roots"][0]["defs"].append({"name": rn0 + ".TagK", "ver": [1, 0], "port": None, "ext": "dsdl", "dep": False,
+                                           "secs": [{"union": True, "hdr": None, "items": vit + cit, "seal": rng.choice(["sealed", 64])}]})
+            ws["roots"][0]["defs"].append({"name": rn0 + ".TagKHost", "ver": [1, 0], "port": None, "ext": "dsdl", "dep": False,
+                                           "secs": [{"union": False, "hdr": None, "items": [["f", ["u", 5, "s"], "pre"], ["f", ["ref", rn0 + ".TagK", 1, 0], "u"], ["f", ["u", 8, "s"], "post"]], "seal": "sealed"}]})
         # a definition that has an *approximately equal* revision: same name, version, kind, min, max and residues mod 32 of the
         # length set, but different members ({16, 24, ..} with and without a gap); its _bit_length_ is printed in both passes
         apx = None
